@@ -26,6 +26,21 @@ pub enum WeightMode {
     ByValue(Vec<i64>),
 }
 
+/// Another cache instance that the same harness thread builds and uses before the cache under test (and, if
+/// `keep_alive`, leaves running beside it): instances of one process must not influence each other through statics,
+/// thread-locals or shared pools.
+#[derive(Clone, Debug, PartialEq, Eq, Hash, Serialize, Deserialize)]
+pub struct Prelude {
+    pub counters: u64,
+    pub shards: usize,
+    pub cmd_buf: usize,
+    pub pool: usize,
+    pub buf: usize,
+    pub keys: u8,
+    pub reads: u8,
+    pub keep_alive: bool,
+}
+
 #[derive(Clone, Debug, PartialEq, Eq, Hash, Serialize, Deserialize)]
 pub struct Cfg {
     pub counters: u64,
@@ -43,6 +58,8 @@ pub struct Cfg {
     /// background threads hammering reads of dedicated (saturated) keys for the whole case: keeps the access consumer busy
     #[serde(default)]
     pub noise_readers: u8,
+    #[serde(default)]
+    pub prelude: Option<Prelude>,
 }
 
 impl Cfg {
@@ -213,6 +230,8 @@ pub struct GenParams {
     pub noise_readers: Vec<u8>,
     /// relative frequency of Fill ops (0 = never)
     pub fill: u32,
+    /// a prelude (another cache on the same thread first) in `prelude` of 8 cases
+    pub prelude: u32,
 }
 
 impl GenParams {
@@ -234,6 +253,7 @@ impl GenParams {
             max_key: 8,
             noise_readers: vec![0],
             fill: 0,
+            prelude: 1,
         }
     }
 }
@@ -385,13 +405,18 @@ pub fn cfg_strategy(params: &GenParams) -> BoxedStrategy<Cfg> {
         weight_mode,
         start_ns: start_s * 1_000_000_000 + start_n,
         noise_readers: 0,
+        prelude: None,
     }).boxed()
 }
 
 pub fn seq_case_strategy(params: &GenParams) -> BoxedStrategy<SeqCase> {
-    (cfg_strategy(params), pick(&params.noise_readers), prop::collection::vec(op_strategy(params), 1..=params.max_ops))
-        .prop_map(|(mut cfg, noise_readers, ops)| {
+    let with_prelude = params.prelude;
+    let prelude = (0u32..8, pick(&[10u64, 64, 1000]), pick(&[2usize, 4, 16, 256]), pick(&[1usize, 8, 64]), pick(&[2usize, 4, 8, 32]), pick(&[1usize, 4, 64]), 1u8..=12, 0u8..=40, any::<bool>())
+        .prop_map(move |(draw, counters, shards, cmd_buf, pool, buf, keys, reads, keep_alive)| if draw < with_prelude { Some(Prelude { counters, shards, cmd_buf, pool, buf, keys, reads, keep_alive }) } else { None });
+    (cfg_strategy(params), pick(&params.noise_readers), prop::collection::vec(op_strategy(params), 1..=params.max_ops), prelude)
+        .prop_map(|(mut cfg, noise_readers, ops, prelude)| {
             cfg.noise_readers = noise_readers;
+            cfg.prelude = prelude;
             // one pool buffer: the harness can flush its own buffered access records deterministically (see pre_read_estimates)
             if noise_readers > 0 { cfg.pool = 1; }
             SeqCase { cfg, ops }
